@@ -70,12 +70,15 @@ def step(name):
     after = SN.digest(SN.canon([args, kwargs]))
     S = SN.snapshot()
     _W["log"].append(name)
+    invariant_broken = (res[0] == "ok" and isinstance(res[1], dict) and res[1].get("t") == "tuple"
+                        and len(res[1].get("v", [])) == 2 and res[1]["v"][0] == "C20-INVARIANT" and res[1]["v"][1] is not True)
     d = SN.diff(_W["S0"], S)
     # memo tables (empty / absent at import time) are not constants: noted, not reported; a wrong
     # memo shows as a history-dependent RESULT
     cachey = [k for k in d if SN.cache_like(k, _W["S_import"])]
     return {"op": name, "result": SN.digest(res), "short": json.dumps(res)[:160], "args_mutated": before != after,
-            "state_diff": [k for k in d if k not in cachey], "cache_like_changes": cachey}
+            "state_diff": [k for k in d if k not in cachey], "cache_like_changes": cachey,
+            "invariant_broken": invariant_broken}
 
 
 # ------------------------------------------------------------------ systematically generated neighbours
@@ -241,6 +244,9 @@ def task_fresh(a, env):
                        "module / class state unchanged", rec["state_diff"][:6], note=name)
             if rec["args_mutated"]:
                 r.viol("C20:arguments-mutated:%s" % name, ME + ":replay_seq", base, "arguments unchanged", "mutated")
+            if rec.get("invariant_broken"):
+                r.viol("C20:equal-arguments-unequal-results:%s" % name, ME + ":replay_seq", base,
+                       "equal results for equal arguments", rec["short"])
         fresh[name] = recs[0]["result"]
         for k in recs[0].get("cache_like_changes", []):
             r.notes.setdefault("mutable_working_state_observed", {})[k] = 1
@@ -344,6 +350,8 @@ def replay_seq(a):
         return None if r0["result"] == r1["result"] else {"hashseed0": r0["short"], "hashseed1": r1["short"]}
     recs = run_sequence(a["ops"], lits)
     for rec in recs:
+        if rec.get("invariant_broken"):
+            return {"op": rec["op"], "expected": "equal results for equal arguments", "observed": rec["short"]}
         if rec["state_diff"]:
             return {"after": rec["op"], "state_changed": rec["state_diff"][:8]}
         if rec["args_mutated"]:
